@@ -116,6 +116,7 @@ type Session struct {
 	Complete    bool      // both Finished verified
 	Stopped     [2]string // Tolerant: why decoding of a direction stopped
 	Transcript  []byte
+	ECDHECurve  uint16
 	CVChecked   bool // TLS 1.2: the CertificateVerify signature was of a kind the reference verifies
 }
 
@@ -218,6 +219,20 @@ func (s *Session) recVers() uint16 {
 func (s *Session) GM() bool {
 	d := Suite(s.Suite)
 	return d == nil || d.GM
+}
+
+// Decodable reports whether Decode can follow a session with these parameters:
+// GM/T 0024 ECC suites, TLS 1.2 with RSA key exchange, and abbreviated TLS 1.2
+// handshakes of the ECDHE AES suites (with the master secret from a key log).
+func Decodable(vers, suite uint16, resumed bool) bool {
+	d := Suite(suite)
+	if d == nil {
+		return false
+	}
+	if d.GM {
+		return vers == VersionGM
+	}
+	return vers == VersionTLS12
 }
 
 // Decode replays a captured GMSSL (or TLS 1.2 RSA key exchange) connection independently.
@@ -388,7 +403,30 @@ func Decode(c2s, s2c []byte, o DecodeOpts) (*Session, error) {
 			return s, err
 		}
 		tr(m)
-		if gm {
+		ecdhe := Suite(s.Suite).ECDHE
+		if ecdhe {
+			// the key exchange itself is not re-done (the ephemeral keys are gone): the
+			// parameters' signature is verified and the master secret comes from the key log
+			if s.Master == nil {
+				return s, fmt.Errorf("full ECDHE handshake (suite %04x) but no master secret in the key log", s.Suite)
+			}
+			if len(s.ServerCerts) < 1 {
+				return s, errors.New("server Certificate message is empty")
+			}
+			if m, err = expect(1, HsServerKeyExchange); err != nil {
+				return s, err
+			}
+			ep, err := ParseSKXECDHE(m.Body)
+			if err != nil {
+				return s, fmt.Errorf("ServerKeyExchange: %v", err)
+			}
+			signed := append(append(append([]byte(nil), s.CH.Random...), s.SH.Random...), ep.Params...)
+			if checked, ok := VerifyTLS12Sig(s.ServerCerts[0], ep.SigAlg, signed, ep.Sig); checked && !ok {
+				return s, errors.New("ECDHE ServerKeyExchange signature does not verify over client_random||server_random||params under the server certificate")
+			}
+			s.ECDHECurve = ep.Curve
+			tr(m)
+		} else if gm {
 			if len(s.ServerCerts) < 2 {
 				return s, errors.New("server Certificate message carries fewer than two certificates")
 			}
@@ -451,12 +489,16 @@ func Decode(c2s, s2c []byte, o DecodeOpts) (*Session, error) {
 		if m == nil || m.Type != HsClientKeyExchange {
 			return s, errors.New("expected ClientKeyExchange")
 		}
-		enc, err := ParseVec16Body(m.Body)
-		if err != nil {
+		var enc []byte
+		if ecdhe {
+			if _, err := ParseVec8Body(m.Body); err != nil {
+				return s, fmt.Errorf("ClientKeyExchange: %v", err)
+			}
+		} else if enc, err = ParseVec16Body(m.Body); err != nil {
 			return s, fmt.Errorf("ClientKeyExchange: %v", err)
 		}
 		tr(m)
-		if (gm && o.EncD != nil) || (!gm && o.RSAD != nil) {
+		if (gm && o.EncD != nil) || (!gm && !ecdhe && o.RSAD != nil) {
 			var pre []byte
 			var ok bool
 			if gm {
